@@ -133,15 +133,18 @@ def source(tokeniser: 'Tokeniser') -> Generator[Flow4Source | Flow6Source, None,
         netmask: str
         ip, netmask = data.split('/')
         raw: bytes = b''.join(bytes([int(_)]) for _ in ip.split('.'))
+        tokeniser.afi = AFI.ipv4
         yield Flow4Source.make_prefix4(raw, int(netmask))
     # Check if it's IPv6 without an offset
     elif data.count(':') >= IPv6.COLON_MIN and data.count('/') == SINGLE_SLASH:
         ip, netmask = data.split('/')
+        tokeniser.afi = AFI.ipv6
         yield Flow6Source.make_prefix6(IP.pton(ip), int(netmask), 0)
     # Check if it's IPv6 with an offset
     elif data.count(':') >= IPv6.COLON_MIN and data.count('/') == DOUBLE_SLASH:
         offset: str
         ip, netmask, offset = data.split('/')
+        tokeniser.afi = AFI.ipv6
         yield Flow6Source.make_prefix6(IP.pton(ip), int(netmask), int(offset))
 
 
@@ -154,15 +157,18 @@ def destination(tokeniser: 'Tokeniser') -> Generator[Flow4Destination | Flow6Des
         netmask: str
         ip, netmask = data.split('/')
         raw: bytes = b''.join(bytes([int(_)]) for _ in ip.split('.'))
+        tokeniser.afi = AFI.ipv4
         yield Flow4Destination.make_prefix4(raw, int(netmask))
     # Check if it's IPv6 without an offset
     elif data.count(':') >= IPv6.COLON_MIN and data.count('/') == SINGLE_SLASH:
         ip, netmask = data.split('/')
+        tokeniser.afi = AFI.ipv6
         yield Flow6Destination.make_prefix6(IP.pton(ip), int(netmask), 0)
     # Check if it's IPv6 with an offset
     elif data.count(':') >= IPv6.COLON_MIN and data.count('/') == DOUBLE_SLASH:
         offset: str
         ip, netmask, offset = data.split('/')
+        tokeniser.afi = AFI.ipv6
         yield Flow6Destination.make_prefix6(IP.pton(ip), int(netmask), int(offset))
 
 
